@@ -39,6 +39,11 @@ def heavy(r):
         f"&c = d6; &e = c + c; &g = e + e; &h = g + g; &j = h + h; &m = j + j; &o = m + m; &q = o + o; i=0; while i<{n} {{ i=i+1; q }}; i",
         f"i=0; while i<{n} {{ i=i+1; `{{i}}d{{i}}={{{k}d6}}` }}; i", f"load('x'); i=0; while i<{n} {{ i=i+1; load('i') }}; i",
         f"i=0; while i<{n} {{ i=i+1; j=0; while j<{k} {{ j=j+1; {k}d6 }} }}; i",
+        # an outer-scope computed value that does a lot of work and evaluates to NOTHING (null), or to a falsy / container value
+        f"&c = {{'k': {min(n, 5000)}d1}}.zz; func g(){{ c }}; i=0; while i<{n} {{ i=i+1; g() }}; i",
+        f"&c = [{min(n, 5000)}d1][5] ?? null; func g(){{ c ?? 1 }}; i=0; while i<{n} {{ i=i+1; g() }}; i",
+        f"&c = {min(n, 5000)}d1 * 0; func g(){{ func h(){{ c }}; h() }}; i=0; while i<{n} {{ i=i+1; g() }}; i",
+        f"&c = [{min(n, 5000)}d1, 2]; func g(){{ c; 0 }}; i=0; while i<{n} {{ i=i+1; g() }}; i",
     ]
     return r.choice(pats)
 
